@@ -114,7 +114,7 @@ Proof.
     rewrite ERUN.
     assert (R0 : hrel (ptypes p) (hclo_ok im p stop) (dctx d0) (attach e0 []) (Heap.init HEAP_BASE) (init_state args)).
     { eapply hentry_rel; eauto. eapply XS.lin_nodup. exact (LINd d0 D0). }
-    eapply proj1. eapply (hsim_exec im p stop IMG FWD EVEN SMALL ENC STOPL STOPC ENDC DEFS LIN ANN FRG') with (c := dctx d0) (lc := lc); eauto.
+    eapply proj1. eapply (hsim_exec im p stop IMG FWD EVEN SMALL STOPL STOPC ENDC DEFS LIN ANN FRG') with (c := dctx d0) (lc := lc); eauto.
     - unfold ann_check_prog in ANN. rewrite forallb_forall in ANN. exact (ANN d0 D0).
     - rewrite attach_names. exact (XS.bind_ids _ _ _ EE).
     - unfold XP.not_oof. rewrite <- ERUN. exact G. }
